@@ -212,13 +212,14 @@ def run(ck):
         "hash equality observed within one process",
     ]
     # ---- 1. design
-    ck.laws("OrderLaws_Laws", cfg_text=f'CONSTANT Tier = "{tier}"\n', label=f"Laws:OrderLaws_Laws({tier})", timeout=1500)
-    ck.mc("OrderLaws_MC", cfg_text=mc_cfg("key"), workers=2, label="MC:OrderLaws_MC containers(hash of key)", timeout=900)
-    neg = ck.mc("OrderLaws_MC", cfg_text=mc_cfg("spelling"), workers=1, label="MC:OrderLaws_MC negative control(hash of spelling)",
-                expect_ok=False, timeout=900)
-    if neg.violated != "SetAgrees":
-        raise tlc.MachineryError(f"negative control: expected SetAgrees to be violated with a spelling hash, got {neg.violated}")
-    ck.exhaustive = True
+    if not ck.replay_case:  # (a replay only re-executes and re-judges the recorded group)
+        ck.laws("OrderLaws_Laws", cfg_text=f'CONSTANT Tier = "{tier}"\n', label=f"Laws:OrderLaws_Laws({tier})", timeout=2400)
+        ck.mc("OrderLaws_MC", cfg_text=mc_cfg("key"), workers=2, label="MC:OrderLaws_MC containers(hash of key)", timeout=900)
+        neg = ck.mc("OrderLaws_MC", cfg_text=mc_cfg("spelling"), workers=1, label="MC:OrderLaws_MC negative control(hash of spelling)",
+                    expect_ok=False, timeout=900)
+        if neg.violated != "SetAgrees":
+            raise tlc.MachineryError(f"negative control: expected SetAgrees to be violated with a spelling hash, got {neg.violated}")
+        ck.exhaustive = True
 
     B = Builder()
     events, info = [], []
